@@ -21,4 +21,7 @@ import TypedpyModel.Props.C13Tie
 #print axioms Typedpy.C13.counterexample_falsy_default_kw
 #print axioms Typedpy.C13.counterexample_union_duplicate
 #print axioms Typedpy.C13.statement_false
+#print axioms Typedpy.C13.none_first_equiv
+#print axioms Typedpy.C13.none_inner_optional
+#print axioms Typedpy.C13.hasNoneOpt_position
 #print axioms Typedpy.C13.equiv_example
